@@ -3,5 +3,5 @@
 D=$1; B=/tmp/seed/$D
 mkdir -p $B/out
 git -C /repo worktree add --detach -f $B/wt HEAD >/dev/null 2>&1 || exit 9
-cp -a /repo/target $B/wt/target
+mkdir -p $B/wt/target && rsync -a --exclude examples --exclude incremental /repo/target/ $B/wt/target/
 echo ready $B/wt
